@@ -38,7 +38,7 @@ REGISTRATION = {
             "of every case.",
 }
 
-MODULES = ["OllamaVerif.Properties.C08", "OllamaVerif.Tie.C08"]
+MODULES = ["OllamaVerif.Properties.C08", "OllamaVerif.Properties.C08Hist", "OllamaVerif.Tie.C08"]
 THEOREMS = [
     "OllamaVerif.C08.single_writer_crash_safe",
     "OllamaVerif.C08.single_writer_crash_safe_from_garbage",
@@ -74,6 +74,18 @@ THEOREMS = [
     "OllamaVerif.C08.copyNamedEffs_noEarlyFull",
     "OllamaVerif.C08.prealloc_violates_shape_and_safety",
     "OllamaVerif.BlobCache.nameToPath_safe",
+    # round 7: crashes folded into the whole-disk history theorem
+    "OllamaVerif.C08.stepOp_allTrusted",
+    "OllamaVerif.C08.crash_history_all_trusted",
+    "OllamaVerif.C08.crash_history_get_trusted",
+    # round 7: Resolve's read limit, negative sizes, manifests written behind the cache's back
+    "OllamaVerif.C08.resolveL_eq_resolve",
+    "OllamaVerif.C08.resolveL_oversize_prefix_digest",
+    "OllamaVerif.C08.resolveL_strict_hash_of_whole_file",
+    "OllamaVerif.C08.F28_oversize_manifest_resolves_to_prefix_digest",
+    "OllamaVerif.C08.F29_negative_size_put_destroys_blob",
+    "OllamaVerif.C08.putNeg_safe",
+    "OllamaVerif.C08.edit_then_resolve",
     # Tie 1: the Link theorems at the variant found in the tree (compile only for the repaired Link, fix 834f6be9a)
     "OllamaVerif.Tie.C08.tree_link_is_fixed",
     "OllamaVerif.Tie.C08.tree_link_then_resolve",
@@ -83,6 +95,8 @@ THEOREMS = [
     "OllamaVerif.Tie.C08.name_rest_chars_match",
     "OllamaVerif.Tie.C08.name_len_limits_match",
     "OllamaVerif.Tie.C08.name_accepted_bytes_safe",
+    "OllamaVerif.Tie.C08.read_limits_agree",
+    "OllamaVerif.Tie.C08.tree_link_then_resolve_limited",
 ]
 # theorems about the PINNED Link (before fix 834f6be9a): kept as the record of finding F8, not claims about the tree
 HISTORICAL = ["OllamaVerif.C08.link_then_resolve_partial", "OllamaVerif.C08.F8_relink_same_size_keeps_old"]
@@ -91,21 +105,43 @@ NAMES_OVERLAY = {"server/internal/internal/names/zz_verif_c08_names_test.go": "s
 PKG = "./server/internal/cache/blob/"
 
 
-def link_variant():
-    """Tie 1 (source fact): which Link is in the tree?  0 = pinned (copyNamedFile on the manifest name itself),
-    1 = repaired (fix 834f6be9a: renames a verified temporary file over the link), 2 = 1 + the zero-length refusal
-    of proposed_fixes/C08-F8-zero.patch."""
-    import os
-    import re
-    src = open(os.path.join(core.REPO, "server/internal/cache/blob/cache.go")).read()
-    m = re.search(r"\nfunc \(c \*DiskCache\) Link\(.*?\n}\n", src, flags=re.S)
-    body = m.group(0) if m else ""
-    if "os.Rename(" not in body:
-        return 0
-    return 2 if re.search(r"info\.Size\(\) == 0\s*&&", body) else 1
+def tree_facts(ctx):
+    """Tie 1, obtained by EXECUTING the tree (TestVerifC08Facts), not by reading its source — a refactoring of Link /
+    Resolve / copyNamedFile (helper extracted, constant named) must not confuse the check:
+    link variant 0 = pinned (in place, same-size shortcut), 1 = repaired (fix 834f6be9a: a re-Link to a different
+    manifest of the same size takes effect), 2 = 1 + refusal of a zero-length blob file (fix 892890804);
+    the largest manifest size Resolve hashes completely / Link's already-linked test recognises; whether a larger one is
+    an error (proposed_fixes/C08-F28.patch) or cut; whether a negative size is refused (C08-F29.patch)."""
+    rc, out, outdir = ctx.go_test(PKG, OVERLAY, "^TestVerifC08Facts$", timeout=1200)
+    f = {}
+    if rc == 0:
+        import os
+        for line in open(os.path.join(outdir, "facts.txt")):
+            k, _, v = line.strip().partition("=")
+            if k:
+                f[k] = int(v)
+    else:
+        ctx.violation("tree-facts-failed", "", out[-1500:], no_input=True)
+    facts = {"resolve_limit": f.get("resolve_limit", 0), "link_limit": f.get("link_limit", 0),
+             "strict": bool(f.get("read_strict", 0)), "refuse": bool(f.get("neg_refused", 0))}
+    variant = 0 if not f.get("link_fixed") else (2 if f.get("link_zerocheck") else 1)
+    return variant, facts
 
 
 def regenerate(ctx, variant):
+    facts = ctx.c08_facts
+    body = ("-- REGENERATED on every run by vlib/checks/c08.py from /repo's working tree. Do not edit.\n"
+            "namespace OllamaVerif.Generated.C08\n"
+            "/-- the limit `Resolve` passes to `readAndSum` (0 = could not be extracted: the Tie theorems fail) -/\n"
+            f"def resolveReadLimit : Nat := {facts['resolve_limit'] or 0}\n"
+            "/-- the largest manifest size Link's already-linked test recognises = the limit it passes to `readAndSum` -/\n"
+            f"def linkReadLimit : Nat := {facts['link_limit'] or 0}\n"
+            "/-- does `readAndSum` refuse a file longer than the limit (proposed_fixes/C08-F28.patch) instead of cutting it? -/\n"
+            f"def readStrict : Bool := {'true' if facts['strict'] else 'false'}\n"
+            "/-- does `copyNamedFile` refuse a negative size (proposed_fixes/C08-F29.patch)? -/\n"
+            f"def negRefused : Bool := {'true' if facts['refuse'] else 'false'}\n"
+            "end OllamaVerif.Generated.C08\n")
+    core.write_generated("OllamaVerif/Generated/C08_ReadLimit.lean", body)
     body = ("-- REGENERATED on every run by vlib/checks/c08.py from /repo's working tree. Do not edit.\n"
             "namespace OllamaVerif.Generated.C08\n"
             "/-- does `DiskCache.Link` in the tree rename a verified temporary file over the link (true), or copy in place\n"
@@ -141,15 +177,69 @@ def regenerate(ctx, variant):
     core.write_generated("OllamaVerif/Generated/C08_NameChars.lean", body)
 
 
+# Every branch of the model that the theorems talk about must have been exercised on the real code by this very run
+# (driver_stats counters, all judged by the driver from its own observations): the check fails closed otherwise.
+REQUIRED_COUNTERS = [
+    # copyNamedFile: stat branches, result classes
+    "branch_put_same_size_shortcut", "branch_put_over_longer", "branch_put_over_shorter", "branch_put_absent", "branch_put_size0",
+    "res_put_ok", "res_put_err:exceeds", "res_put_err:short", "res_put_err:src", "res_put_err:underfoot",
+    # Import, Get
+    "res_import_dig", "res_import_err:sizemismatch", "res_import_err:src", "res_get_entry", "res_get_err:notexist",
+    # Link
+    "branch_link_already_linked", "branch_link_replaces", "branch_link_first", "branch_link_zero_length_refused",
+    "branch_link_blob_missing", "branch_link_refused_keeps_old", "res_link_err:invalidname", "res_link_err:underfoot",
+    "linkr_hook_dig", "linkr_hook_err:notexist", "linkr_hook_nohook",
+    # Unlink, Resolve
+    "res_unlink_unlinked:true", "res_unlink_unlinked:false", "res_unlink_err:invalidname", "branch_unlink_other_spelling",
+    "branch_resolve_at_digest", "branch_resolve_blob_existed", "branch_resolve_creates_blob", "res_resolve_err:invaliddigest",
+    "res_resolve_err:invalidname", "res_resolve_err:notexist",
+    # Chunked
+    "branch_chunk_same_size_shortcut", "branch_chunk_over_shorter", "branch_chunk_absent", "res_chunk_ok", "res_chunk_err:short",
+    "res_chunk_err:src", "res_chunk_err:underfoot",
+    # crash cuts: every effect kind killed at least once, every store kind, the real traces
+    "crash_cases_put", "crash_cases_import", "crash_cases_chunk", "crash_cases_link", "crash_runs_killed_open",
+    "crash_runs_killed_write", "crash_runs_killed_trunc", "crash_runs_killed_rename", "crash_runs_killed_link_open",
+    "crash_runs_killed_link_rename", "crash_runs_survived", "crash_full_size_states", "trace_runs",
+    # round 7: negative sizes, manifests written behind the cache's back, readAndSum over its small whole domain,
+    # manifests around the read limit
+    "branch_edit_written", "branch_edit_makes_case_twin", "branch_resolve_creates_blob",
+    "readsum_cases", "readsum_cases_over_limit", "edge_cases_size_limit+1", "edge_cases_size_limit+0", "edge_cases_size_limit-1",
+    # interleavings, large blobs, odd directories
+    "conc_cases_all-good", "conc_cases_bad-cowriter", "conc_full_size_states", "big_runs_killed", "hist_cases_weird_dir",
+]
+
+
+def coverage_required(ctx):
+    stats = ctx.stats
+    required = list(REQUIRED_COUNTERS)
+    facts = ctx.c08_facts
+    # the variant-dependent branches: what an oversize manifest / a negative size does in THIS tree
+    required.append("res_resolve_err:toolarge" if facts["strict"] else "branch_resolve_oversize_prefix")
+    required += ["branch_putneg_refused"] if facts["refuse"] else ["branch_putneg_ok_over_file", "branch_putneg_exceeds", "branch_putneg_src"]
+    missing = [c for c in required if not stats.get(c)]
+    ctx.coverage["model_branches_required"] = len(required)
+    ctx.coverage["model_branches_missing"] = missing
+    if missing:
+        ctx.violation("correspondence-coverage", "", "branches of the model never exercised on the real code in this run: "
+                      + ", ".join(missing), no_input=True)
+
+
 def run(ctx):
-    variant = link_variant()
+    variant, ctx.c08_facts = tree_facts(ctx)
     regenerate(ctx, variant)
     ctx.lean_check(MODULES, THEOREMS)
     ctx.coverage["theorems_for_tree_link"] = [t for t in THEOREMS if ".Tie.C08." in t]
     ctx.coverage["theorems_about_pinned_link_only"] = HISTORICAL
     ctx.coverage["link_variant"] = ["pinned (in place)", "repaired (temp+rename)", "repaired + zero-length refusal"][variant]
-    env = {"VERIF_C08_FIXED": variant, "VERIF_N": ctx.scale(1200, 30000), "VERIF_NCONC": ctx.scale(1200, 20000),
-           "VERIF_NCRASH": ctx.scale(54, 270), "VERIF_NBIG": ctx.scale(5, 10), "VERIF_NBIGCONC": ctx.scale(2, 3)}
+    facts = ctx.c08_facts
+    ctx.coverage["read_limit_facts"] = facts
+    if not facts["resolve_limit"] or not facts["link_limit"]:
+        ctx.violation("read-limit-not-found", "", f"the read limits of Resolve/Link could not be determined by probing: {facts}", no_input=True)
+    vflags = {"VERIF_C08_FIXED": variant, "VERIF_C08_STRICT": int(facts["strict"]), "VERIF_C08_REFUSE": int(facts["refuse"]),
+              "VERIF_C08_RLIM": facts["resolve_limit"] or (1 << 20)}
+    env = {**vflags, "VERIF_N": ctx.scale(1200, 30000), "VERIF_NCONC": ctx.scale(1200, 20000),
+           "VERIF_NCRASH": ctx.scale(54, 270), "VERIF_NBIG": ctx.scale(5, 10), "VERIF_NBIGCONC": ctx.scale(2, 3),
+           "VERIF_NEDGE": ctx.scale(4, 8)}
     if ctx.replay:
         env["VERIF_REPLAY"] = ctx.replay_line_file()
     rc, out, outdir = ctx.go_test(PKG, OVERLAY, "^TestVerifC08$", env=env, timeout=3000)
@@ -161,7 +251,7 @@ def run(ctx):
     if not ctx.replay:
         # the same deterministic interleavings under the race detector (the cache documents itself as safe for
         # concurrent use): a DATA RACE report makes the test binary fail
-        env2 = {"VERIF_C08_FIXED": variant, "VERIF_C08_PHASES": "conc", "VERIF_NCONC": ctx.scale(150, 1500)}
+        env2 = {**vflags, "VERIF_C08_PHASES": "conc", "VERIF_NCONC": ctx.scale(150, 1500)}
         rc2, out2, outdir2 = ctx.go_test(PKG, OVERLAY, "^TestVerifC08$", env=env2, race=True, timeout=3000)
         if rc2 != 0:
             ctx.violation("race-run-failed", "", out2[-1500:], no_input=True)
@@ -169,6 +259,8 @@ def run(ctx):
         ctx.l1(outdir2, label="L1-race")
         ctx.classify(ctx.l2(outdir2))
         ctx.coverage["race_run"] = "ok" if rc2 == 0 else "failed"
+    if not ctx.replay:
+        coverage_required(ctx)
     if ctx.thorough:
         ctx.leanchecker(MODULES)
     ctx.assumptions += [
